@@ -5,10 +5,12 @@
 // TLC's (spec/ObsAdminTrace.tla).
 //
 // Concretisation of the 3-bit address lattice (host h, network [p,len]):
-//   v4     host 198.51.100.(32h+7)          net 198.51.100.(p<<(8-len))/(24+len)
-//   v6     host 2001:db8::(h<<13|7)         net 2001:db8::(p<<(16-len))/(112+len)
-//   mapped peer ::ffff:198.51.100.(32h+7)   lists in v4 notation
-//   mappedlist peer in v4 notation          lists in IPv4-mapped notation (::ffff:a.b.c.d, /(96+n))
+//
+//	v4     host 198.51.100.(32h+7)          net 198.51.100.(p<<(8-len))/(24+len)
+//	v6     host 2001:db8::(h<<13|7)         net 2001:db8::(p<<(16-len))/(112+len)
+//	mapped peer ::ffff:198.51.100.(32h+7)   lists in v4 notation
+//	mappedlist peer in v4 notation          lists in IPv4-mapped notation (::ffff:a.b.c.d, /(96+n))
+//
 // a `single` network is written as the bare host address.
 package main
 
